@@ -4,11 +4,19 @@
    addLazyInstance is the exact transpose of the forward table (as multisets), the
    forward table holds precisely each instance's references, and the worklist of
    instanceDependencies terminates and returns exactly the reflexive-free
-   transitive closure of the forward table.  That the index lists the ids/keywords
-   the eager reader loads, and that loading in any order serialises identically,
-   is established by the correspondence of tools/c10.py (testing). *)
-From Coq Require Import List ZArith Bool.
-From SC Require Import Lazy Lazy_Proofs.
+   transitive closure of the forward table.
+   And for the scan that feeds these tables (coq/P21Scan.v: sectionReader.cc,
+   lazyP21DataSectionReader.cc), for every data section of well-formed instances in any
+   layout (white space, any number of comments with any text, strings with any content,
+   instance names written with white space and leading zeros, nested parentheses,
+   externally mapped records): every instance is found, in file order, under its own
+   name and keyword and with exactly the instance names its record mentions outside
+   strings and comments; the scan stops at ENDSEC; and the forward table built from the
+   text maps each instance to those names.
+   That the keywords are the ones the eager reader loads, and that loading in any order
+   serialises identically, is established by the correspondence of tools/c10.py (testing). *)
+From Coq Require Import List ZArith Bool NArith.
+From SC Require Import Lazy Lazy_Proofs P21Lex P21Str P21Scan P21Scan_Proofs.
 Import ListNotations.
 Local Open Scope Z_scope.
 
@@ -43,3 +51,48 @@ Proof.
   vm_compute. repeat split; try (eexists; split; [reflexivity|]); cbn; try reflexivity.
   split; [auto|]. intros [H|[H|[H|[]]]]; discriminate.
 Qed.
+
+(* ---- the scan ---- *)
+Theorem c10_comment_ends_at_first_close : forall txt k,
+  no_close txt = true -> comment_end (txt ++ STAR :: SLASH :: k) = Some k.
+Proof. exact comment_end_closes. Qed.
+Print Assumptions c10_comment_ends_at_first_close.
+
+Theorem c10_instance_found : forall p rest, pinst_ok p = true ->
+  next_instance (pinst_text p ++ rest) = NInst (dval (pi_ds p)) (pi_kw p) (refs_of (pi_rec p)) rest.
+Proof. exact next_instance_wellformed. Qed.
+Print Assumptions c10_instance_found.
+
+Theorem c10_section_indexed : forall ps s ws x,
+  forallb pinst_ok ps = true -> seps_ok s = true -> forallb is_space ws = true ->
+  let tail := seps_text s ++ ENDSEC ++ ws ++ SEMI :: x in
+  scan_section (flat_map pinst_text ps ++ tail) = (map pinst_summary ps, false, tail) /\ at_endsec tail = true.
+Proof. exact data_section_indexed. Qed.
+Print Assumptions c10_section_indexed.
+
+Theorem c10_forward_table_from_text : forall ps s ws x,
+  forallb pinst_ok ps = true -> seps_ok s = true -> forallb is_space ws = true ->
+  NoDup (map (fun p => dval (pi_ds p)) ps) ->
+  forall p, In p ps ->
+    tfind (fst (tables_of_text (flat_map pinst_text ps ++ seps_text s ++ ENDSEC ++ ws ++ SEMI :: x))) (Z.of_N (dval (pi_ds p)))
+    = map Z.of_N (refs_of (pi_rec p)).
+Proof. exact forward_table_from_text. Qed.
+Print Assumptions c10_forward_table_from_text.
+
+(* the premises are met by records that use every feature:
+     / * a * / #007 / * * * / = NODE ('x#9;(' , # 3 , (#3,#0012) ) / * / c * / ;
+     #12=(A(1)B('it''s',#7));                                                        *)
+Example c10_scan_example :
+  let sp := 32%N in
+  let cm (t : list N) : list byte * list byte := ([sp], t) in
+  let p1 := mkPI ([cm [97%N; 32%N; 42%N]], [sp]) [] [48; 48; 55]%N ([cm [42%N]], [sp]) [sp] [78; 79; 68; 69]%N
+                 [KPlain sp; KOpen; KStr [Plain 120%N; Plain 35%N; Plain 57%N; Plain 59%N; Plain 40%N]; KPlain sp; KPlain 44%N;
+                  KRef [sp] [51%N]; KPlain sp; KPlain 44%N; KOpen; KRef [] [51%N]; KPlain 44%N; KRef [] [48; 48; 49; 50]%N; KClose; KPlain sp]
+                 ([cm [47%N; 32%N; 99%N; 32%N]], []) in
+  let p2 := mkPI ([], [10%N]) [] [49; 50]%N ([], []) [] []
+                 [KOpen; KPlain 65%N; KOpen; KPlain 49%N; KClose; KPlain 66%N; KOpen; KStr [Plain 105%N; Plain 116%N; Apos; Plain 115%N]; KPlain 44%N; KRef [] [55%N]; KClose]
+                 ([], []) in
+  forallb pinst_ok [p1; p2] = true /\
+  fst (fst (scan_section (flat_map pinst_text [p1; p2] ++ [10; 69; 78; 68; 83; 69; 67; 59; 10]%N)))
+    = [(7%N, [78; 79; 68; 69]%N, [3; 3; 12]%N); (12%N, [], [7%N])].
+Proof. vm_compute. split; reflexivity. Qed.
